@@ -85,10 +85,13 @@ Proof. induction l as [|x l IH]; intros [|k] f g; cbn; auto. rewrite IH. reflexi
 (* ------------------------------------------------------------------ a handler that holds a slot can release it *)
 
 (* the steps the handler goroutine of a session still has to take to give the slot back; they are
-   its own steps only: nothing is asked of the loop, of another session, or of the peer *)
+   its own steps only: nothing is asked of the loop, of another session, of the peer - or of the RELAY:
+   while the relay is being dialled the path takes the handshake timer (HDialTimer), never an answer of
+   the relay (HDialOk / HDialFail) *)
 Definition handler_path (i : nat) (c : sess) : list label :=
   match hp c with
-  | HStart => [LH i HClaim; LH i HEnd; LH i HRecv]
+  | HStart => [LH i HClaim; LH i HDialTimer; LH i HRecv]
+  | HDial => [LH i HDialTimer; LH i HRecv]
   | HRun => [LH i HEnd; LH i HRecv]
   | HRetRecv => [LH i HRecv]
   | _ => []
@@ -157,7 +160,7 @@ Proof.
   crush_sess c; cbn [hp] in *; try (cbn in Hocc; discriminate); try lia.
   - (* HStart, not yet claimed *)
     destruct (bg_step st i _ HClaim _ _ Hn eq_refl) as (st1 & S1 & N1 & T1 & M1 & C1 & L1).
-    destruct (bg_step st1 i _ HEnd _ _ N1 eq_refl) as (st2 & S2 & N2 & T2 & M2 & C2 & L2).
+    destruct (bg_step st1 i _ HDialTimer _ _ N1 eq_refl) as (st2 & S2 & N2 & T2 & M2 & C2 & L2).
     assert (R2 : recv_ready (tok st2) = true).
     { apply (recv_ready_of N); rewrite T2, T1; tok_case (tok st); auto. }
     cbn in N2. destruct (bg_step st2 i _ HRecv (mkSess HDone true OHandler false true) (tok_recv (tok st2)) N2) as (st3 & S3 & N3 & T3 & M3 & C3 & L3).
@@ -165,6 +168,16 @@ Proof.
     exists st3. eexists. rewrite run_cons, S1, run_cons, S2, run_cons, S3, run_nil. split; [reflexivity|]. split; [discriminate|].
     split; [exact N3|]. cbn. repeat split; try congruence.
     intros HN. rewrite T3, T2, T1. specialize (Hch HN).
+    rewrite chlen_recv; tok_case (tok st); cbn; auto; lia.
+  - (* HDial: the relay is being dialled; the handshake timer *)
+    destruct (bg_step st i _ HDialTimer _ _ Hn eq_refl) as (st2 & S2 & N2 & T2 & M2 & C2 & L2).
+    assert (R2 : recv_ready (tok st2) = true).
+    { apply (recv_ready_of N); rewrite T2; tok_case (tok st); auto. }
+    cbn in N2. destruct (bg_step st2 i _ HRecv (mkSess HDone true OHandler false true) (tok_recv (tok st2)) N2) as (st3 & S3 & N3 & T3 & M3 & C3 & L3).
+    { cbn [hstep hp]. rewrite R2. reflexivity. }
+    exists st3. eexists. rewrite run_cons, S2, run_cons, S3, run_nil. split; [reflexivity|]. split; [discriminate|].
+    split; [exact N3|]. cbn. repeat split; try congruence.
+    intros HN. rewrite T3, T2. specialize (Hch HN).
     rewrite chlen_recv; tok_case (tok st); cbn; auto; lia.
   - (* HRun *)
     destruct (bg_step st i _ HEnd _ _ Hn eq_refl) as (st2 & S2 & N2 & T2 & M2 & C2 & L2).
@@ -326,3 +339,99 @@ Lemma main_exit_waits : forall m o,
   | _ => True
   end.
 Proof. intros m o. destruct m; cbn; auto. Qed.
+
+(* ------------------------------------------------------------------ the relay dial: who can release the slot of a served session *)
+
+Lemma nth_error_upd_neq : forall A (l : list A) i j (f : A -> A), i <> j -> nth_error (upd j f l) i = nth_error l i.
+Proof. induction l as [|x l IH]; intros [|i] [|j] f H; cbn; auto; congruence. Qed.
+
+Lemma nth_snoc_keep : forall A (l x : list A) i c, nth_error l i = Some c -> nth_error (l ++ x) i = Some c.
+Proof. intros A l x i c H. rewrite nth_error_app1; [exact H|]. apply nth_error_Some. congruence. Qed.
+
+(* a session runSession has returned from is touched by the steps of its own handler goroutine only (both code versions) *)
+Lemma bg_frame : forall v st l st' i c, step v st l = Some st' -> (forall a, l <> LH i a) ->
+  nth_error (bg st) i = Some c -> nth_error (bg st') i = Some c.
+Proof.
+  intros v st l st' i c H Hl Hn. destruct st as [t m b cu ps g]. cbn [bg] in Hn.
+  destruct l; cbn [step] in H; cbn [tok mn bg cur polls gets] in H.
+  all: try (destruct m; try discriminate;
+            unfold main_ret, record_poll, finish, set_mn, set_tok, set_cur, set_bg in H; cbn [tok mn bg cur polls gets] in H;
+            repeat match type of H with
+              | match ?x with _ => _ end = Some _ => destruct x eqn:?; try discriminate
+              | (if ?x then _ else _) = Some _ => destruct x eqn:?; try discriminate
+              end;
+            inversion H; subst; cbn [bg]; first [exact Hn | apply nth_snoc_keep; exact Hn]).
+  (* left: LH i0 a *)
+  - assert (Hne : i <> i0) by (intros ->; eapply Hl; reflexivity).
+    destruct (nth_error b i0) as [c0|] eqn:Hj.
+    + destruct (hstep v a t c0) as [[c' t']|]; [|discriminate]. inversion H; subst.
+      unfold set_tok, set_bg. cbn [bg]. rewrite nth_error_upd_neq by exact Hne. exact Hn.
+    + destruct (i0 =? length b); [|discriminate]. destruct cu as [c0|]; [|discriminate].
+      destruct (hstep v a t c0) as [[c' t']|]; [|discriminate]. inversion H; subst. exact Hn.
+Qed.
+
+(* what the relay, or the handler's own timer, can make of a dial in progress *)
+Definition dial_event (i : nat) (l : label) : bool :=
+  match l with
+  | LH j HDialOk | LH j HDialFail | LH j HDialTimer => j =? i
+  | _ => false
+  end.
+
+(* the other steps of the handler are not enabled while it dials *)
+Lemma hstep_dial_only : forall v a t c, hp c = HDial -> a <> HDialOk -> a <> HDialFail -> a <> HDialTimer -> hstep v a t c = None.
+Proof. intros v a t c Hh H1 H2 H3. unfold hstep. rewrite Hh. destruct a; congruence. Qed.
+
+(* A relay that hangs (accepts the connection and never answers) with no timer bounding the dial: whatever else
+   happens - any number of steps of the loop, of other sessions, of the broker - the session stays where it is,
+   holding its slot.  (Both code versions; this is what the handshake timer of the dialer is for.) *)
+Lemma hang_holds_slot : forall v tr st st' i c, nth_error (bg st) i = Some c -> hp c = HDial ->
+  forallb (fun l => negb (dial_event i l)) tr = true -> run v st tr = Some st' ->
+  nth_error (bg st') i = Some c.
+Proof.
+  induction tr as [|l tr IH]; intros st st' i c Hn Hh Hf H; cbn in *.
+  - inversion H; subst. exact Hn.
+  - apply andb_true_iff in Hf as [Hl Hf]. destruct (step v st l) as [st1|] eqn:E; [|discriminate].
+    apply (IH st1 st' i c); auto.
+    destruct l; try (eapply bg_frame; [exact E| intros; discriminate | exact Hn]).
+    destruct (Nat.eq_dec i0 i) as [->|Hne].
+    + (* a step of the session's own handler: only the dial events are enabled at HDial *)
+      exfalso. cbn [step] in E. rewrite Hn in E.
+      rewrite hstep_dial_only in E; [discriminate|exact Hh| | |];
+        intros ->; cbn in Hl; rewrite Nat.eqb_refl in Hl; discriminate.
+    + eapply bg_frame; [exact E| |exact Hn]. intros a' Ha. inversion Ha. congruence.
+Qed.
+
+(* a well-formed served session that is dialling the relay holds exactly one slot, and its own timer gives it back *)
+Lemma bg_dial_facts : forall i c, bg_ok c = true -> hp c = HDial ->
+  holds c = 1 /\ pend c = 0 /\ released c = 0 /\ handler_path i c = [LH i HDialTimer; LH i HRecv].
+Proof. intros i c Hok Hh. unfold handler_path. rewrite Hh. crush_sess c; auto. Qed.
+
+Lemma dial_timer_releases : forall N st i c, Inv N st -> nth_error (bg st) i = Some c -> hp c = HDial ->
+  holds c = 1 /\
+  exists st' c', run V1 st [LH i HDialTimer; LH i HRecv] = Some st' /\
+    nth_error (bg st') i = Some c' /\ holds c' = 0 /\ pend c' = 0 /\ hp c' = HDone /\ released c' = 1 /\
+    mn st' = mn st /\ cur st' = cur st /\ in_use st' + 1 = in_use st /\
+    (N <> 0 -> S (chlen (tok st')) = chlen (tok st)).
+Proof.
+  intros N st i c I Hn Hh.
+  assert (Hok : bg_ok c = true).
+  { pose proof (inv_bg _ _ I) as Ibg. rewrite Forall_forall in Ibg. apply Ibg. eapply nth_error_In; eauto. }
+  destruct (bg_dial_facts i c Hok Hh) as (Hh1 & Hp0 & _ & Hpath). split; [exact Hh1|].
+  destruct (bg_release_path N st i c I Hn ltac:(lia)) as (st' & c' & R & _ & N' & H0 & P0 & D & Rl & M & C & L & Ch).
+  rewrite Hpath in R. exists st', c'. repeat (split; [assumption|]). split; [|exact Ch].
+  (* in_use: only session i changed, from holding to not holding *)
+  pose proof (run_inv_from _ _ _ _ I R) as I'.
+  cbn [run] in R. destruct (step V1 st (LH i HDialTimer)) as [s1|] eqn:E1; [|discriminate].
+  destruct (step V1 s1 (LH i HRecv)) as [s2|] eqn:E2; [|discriminate]. inversion R; subst s2.
+  cbn [step] in E1. rewrite Hn in E1. destruct (hstep V1 HDialTimer (tok st) c) as [[c1 t1]|] eqn:Hs1; [|discriminate].
+  inversion E1; subst s1. clear E1.
+  cbn [step] in E2. unfold set_tok, set_bg in E2. cbn [bg tok] in E2. rewrite (nth_error_upd_eq _ _ _ _ _ Hn) in E2.
+  destruct (hstep V1 HRecv t1 c1) as [[c2 t2]|] eqn:Hs2; [|discriminate]. inversion E2; subst st'. clear E2.
+  rewrite !in_use_tot. unfold tot. cbn [bg cur]. rewrite upd_upd.
+  pose proof (sum_upd holds (bg st) i c c2 Hn) as Su.
+  assert (Hc2 : holds c2 = 0).
+  { cbn [bg] in N'. rewrite upd_upd in N'. rewrite (nth_error_upd_eq _ _ _ _ _ Hn) in N'. inversion N'; subst. exact H0. }
+  rewrite Hc2, Hh1 in Su.
+  replace (upd i (fun x => (fun _ => c2) ((fun _ => c1) x)) (bg st)) with (upd i (fun _ => c2) (bg st)) by reflexivity.
+  lia.
+Qed.
